@@ -141,7 +141,13 @@ pub fn run(ctx: &mut Ctx) -> Step {
     set_board(ctx, &mut a, &start)?;
     set_board(ctx, &mut b, &start)?;
     let extreme = ctx.tape.choose(if ctx.tier == Tier::Thorough { 40 } else { 400 }) == 1;
-    let calls = if extreme { 1200 } else { *ctx.tape.pick(&[20u32, 60, 150, 400]) };
+    let calls = if extreme {
+        1200
+    } else if ctx.tier == Tier::Thorough {
+        *ctx.tape.pick(&[20u32, 60, 150, 400, 800])
+    } else {
+        *ctx.tape.pick(&[20u32, 60, 150, 400])
+    };
     let mut last: [Option<Mv>; 2] = [None, None];
     let mut trace: Vec<String> = Vec::new();
     for _ in 0..calls {
